@@ -141,6 +141,21 @@ func genC02(rng *rand.Rand, n int, emit func(Case), dist map[string]int) {
 			}
 			ms = append(ms, m)
 		}
+		// structural tie: after EVERY registration (first order) echo's real radix tree equals the model's tree
+		if rng.Intn(2) == 0 {
+			te := echo.New()
+			for k, r := range rs {
+				if it >= n {
+					break
+				}
+				it++
+				te.Add(r.method, r.pattern, func(c echo.Context) error { return nil })
+				emit(Case{In: L(I(3), rTableSx(rs[:k+1])), Out: rParseDump(echo.VerifDumpRouter(te.Router())), Ok: true,
+					Key:   "tree|" + rShowTable(rs[:k+1]),
+					Human: fmt.Sprintf("radix tree after registering [%s]: %s", rShowTable(rs[:k+1]), echo.VerifDumpRouter(te.Router()))})
+				dist["tree_dumps_compared"]++
+			}
+		}
 		base := make([]string, len(paths)) // outcome in the first order, by route identity
 		for pi, perm := range perms {
 			prs := make([]rRoute, len(rs))
